@@ -326,9 +326,56 @@ MUTANTS += [
     ("c11-householder-not-reversed", ["C11"], [(ORT, "        reverse_idx = torch.arange(self.num_transforms - 1, -1, -1)", "        reverse_idx = torch.arange(0, self.num_transforms)")], "ORTH-REV"),
     ("c11-householder-skip-first", ["C11"], [(ORT, "        reverse_idx = torch.arange(self.num_transforms - 1, -1, -1)", "        reverse_idx = torch.arange(self.num_transforms - 1, 0, -1)")], "ORTH-REV"),
     ("c11-reflection-coefficient", ["C11"], [(ORT, "temp = torch.ger(temp, (2.0 / squared_norm) * q_vector)  # Outer product.", "temp = torch.ger(temp, (1.0 / squared_norm) * q_vector)  # Outer product.")], "ORTH-REV"),
-    ("c11-conv-override-weight", ["C11"], [(T + "conv.py", "    def forward(self, inputs, context=None):\n        if inputs.dim() != 4:", "    def weight(self):\n        return self.permutation(super().weight())[0]\n\n    def forward(self, inputs, context=None):\n        if inputs.dim() != 4:")], "LIN-LOGDET"),
+    ("c11-conv-override-weight", ["C11"], [(T + "conv.py", "    def forward(self, inputs, context=None):\n        if inputs.dim() != 4:", "    def weight(self):\n        return self.permutation(super().weight())[0]\n\n    def forward(self, inputs, context=None):\n        if inputs.dim() != 4:")], "UNDECIDED"),
     ("c11-naive-logdet-other", ["C11"], [(LIN, "        return torchutils.logabsdet(self._weight)\n", "        return torchutils.logabsdet(self._weight.t() @ self._weight) / 1.0\n")], "LIN-LOGDET"),
     ("c11-abstract-accessor", ["C11"], [(QR, "    def weight_inverse(self):", "    def _weight_inverse_unused(self):")], "LIN-COMPLETE"),
+]
+
+# ---- round-2 rules: SLP-CTX, CMP-ORDER sequence forms, NUM-LOGSPACE ----
+MUTANTS += [
+    ("c04-sample-base-raw-context", ["C04"], [(FB, "            noise = self._distribution.sample(num_samples, context=embedded_context)", "            noise = self._distribution.sample(num_samples, context=context)")], "SLP-CTX"),
+    ("c04-slp-base-raw-context", ["C04"], [(FB, "            noise, log_prob = self._distribution.sample_and_log_prob(\n                num_samples, context=embedded_context\n            )", "            noise, log_prob = self._distribution.sample_and_log_prob(\n                num_samples, context=context\n            )")], "SLP-CTX"),
+    ("c04-logprob-transform-raw-context", ["C04"], [(FB, "        noise, logabsdet = self._transform(inputs, context=embedded_context)", "        noise, logabsdet = self._transform(inputs, context=context)")], "SLP-CTX"),
+    ("c04-sample-double-embedding", ["C04"], [(FB, "        samples, _ = self._transform.inverse(noise, context=embedded_context)", "        samples, _ = self._transform.inverse(noise, context=self._embedding_net(embedded_context))")], "SLP-CTX"),
+    ("c08-ctor-reversed", ["C08"], [(TB, "        self._transforms = nn.ModuleList(transforms)", "        self._transforms = nn.ModuleList(reversed(list(transforms)))")], "CMP-ORDER"),
+    ("c08-inverse-list-forward-order", ["C08"], [(TB, "funcs = (transform.inverse for transform in self._transforms[::-1])", "funcs = list(t.inverse for t in list(self._transforms))")], "CMP-ORDER"),
+    ("c08-inverse-double-reverse", ["C08"], [(TB, "funcs = (transform.inverse for transform in self._transforms[::-1])", "funcs = reversed([t.inverse for t in self._transforms[::-1]])")], "CMP-ORDER"),
+    ("c19-svd-log-prod", ["C19"], [(SVD, "        return torch.sum(self.log_diagonal)", "        return torch.log(torch.prod(self.diagonal))")], "NUM-LOGSPACE"),
+    ("c19-logabsdet-via-det", ["C19"], [(TU, "    _, res = torch.slogdet(x)\n    return res", "    det = torch.det(x)\n    return torch.log(torch.abs(det))")], "NUM-LOGSPACE"),
+    ("c19-lu-log-prod-method", ["C19"], [(LU, "        return torch.sum(torch.log(self.upper_diag))", "        return self.upper_diag.prod().log()")], "NUM-LOGSPACE"),
+]
+
+# ---- C11 LIN-WORD / LIN-LOGDET on the matrix-word algebra ----
+MUTANTS += [
+    ("c11w-lu-weight-order", ["C11"], [(LU, "        return lower @ upper", "        return upper @ lower")], "LIN-WORD"),
+    ("c11w-lu-forward-order", ["C11"], [(LU, "        outputs = F.linear(inputs, upper)\n        outputs = F.linear(outputs, lower, self.bias)", "        outputs = F.linear(inputs, lower)\n        outputs = F.linear(outputs, upper, self.bias)")], "LIN-WORD"),
+    ("c11w-lu-forward-no-bias", ["C11"], [(LU, "        outputs = F.linear(outputs, lower, self.bias)", "        outputs = F.linear(outputs, lower)")], "LIN-WORD"),
+    ("c11w-lu-inverse-solve-order", ["C11"], [(LU, "        outputs = torch.linalg.solve_triangular(\n            lower, outputs.t(), upper=False, unitriangular=True\n        )\n        outputs = torch.linalg.solve_triangular(\n            upper, outputs, upper=True, unitriangular=False\n        )", "        outputs = torch.linalg.solve_triangular(\n            upper, outputs.t(), upper=True, unitriangular=False\n        )\n        outputs = torch.linalg.solve_triangular(\n            lower, outputs, upper=False, unitriangular=True\n        )")], "LIN-WORD"),
+    ("c11w-lu-inverse-unit-flag", ["C11"], [(LU, "            upper, outputs, upper=True, unitriangular=False\n", "            upper, outputs, upper=True, unitriangular=True\n")], "LIN-WORD"),
+    ("c11w-lu-inverse-upper-flag", ["C11"], [(LU, "            lower, outputs.t(), upper=False, unitriangular=True\n", "            lower, outputs.t(), upper=True, unitriangular=True\n")], "LIN-WORD"),
+    ("c11w-lu-inverse-bias-late", ["C11"], [(LU, "        outputs = inputs - self.bias\n        outputs = torch.linalg.solve_triangular(\n            lower, outputs.t()", "        outputs = inputs\n        outputs = torch.linalg.solve_triangular(\n            lower, outputs.t()"), (LU, "        outputs = outputs.t()\n\n        logabsdet = -self.logabsdet()", "        outputs = outputs.t() - self.bias\n\n        logabsdet = -self.logabsdet()")], "LIN-WORD"),
+    ("c11w-lu-weight-inverse-order", ["C11"], [(LU, "        lower_inverse = torch.linalg.solve_triangular(\n            lower, identity, upper=False, unitriangular=True\n        )\n        weight_inverse = torch.linalg.solve_triangular(\n            upper, lower_inverse, upper=True, unitriangular=False\n        )", "        upper_inverse = torch.linalg.solve_triangular(\n            upper, identity, upper=True, unitriangular=False\n        )\n        weight_inverse = torch.linalg.solve_triangular(\n            lower, upper_inverse, upper=False, unitriangular=True\n        )")], "LIN-WORD"),
+    ("c11w-lu-lower-diag-not-one", ["C11"], [(LU, "        lower[self.diag_indices[0], self.diag_indices[1]] = 1.0", "        lower[self.diag_indices[0], self.diag_indices[1]] = 2.0")], "LIN-"),
+    ("c11w-lu-upper-entries-in-lower", ["C11"], [(LU, "        upper[self.upper_indices[0], self.upper_indices[1]] = self.upper_entries", "        upper[self.lower_indices[0], self.lower_indices[1]] = self.upper_entries")], "LIN-WORD"),
+    ("c11w-qr-weight-no-transpose", ["C11"], [(QR, "        weight, _ = self.orthogonal(upper.t())\n        return weight.t()", "        weight, _ = self.orthogonal(upper)\n        return weight")], "LIN-WORD"),
+    ("c11w-qr-forward-inverse-orth", ["C11"], [(QR, "        outputs, _ = self.orthogonal(outputs)  # Ignore logabsdet as we know it's zero.", "        outputs, _ = self.orthogonal.inverse(outputs)  # Ignore logabsdet as we know it's zero.")], "LIN-WORD"),
+    ("c11w-qr-inverse-order", ["C11"], [(QR, "        outputs, _ = self.orthogonal.inverse(\n            outputs\n        )  # Ignore logabsdet since we know it's zero.\n        outputs = torch.linalg.solve_triangular(upper, outputs.t(), upper=True)\n        outputs = outputs.t()", "        outputs = torch.linalg.solve_triangular(upper, outputs.t(), upper=True)\n        outputs = outputs.t()\n        outputs, _ = self.orthogonal.inverse(\n            outputs\n        )  # Ignore logabsdet since we know it's zero.")], "LIN-WORD"),
+    ("c11w-qr-weight-inverse-orth-dir", ["C11"], [(QR, "        weight_inv, _ = self.orthogonal(upper_inv)", "        weight_inv, _ = self.orthogonal.inverse(upper_inv)")], "LIN-WORD"),
+    ("c11w-qr-solve-lower", ["C11"], [(QR, "        upper_inv = torch.linalg.solve_triangular(upper, identity, upper=True)", "        upper_inv = torch.linalg.solve_triangular(upper, identity, upper=False)")], "LIN-WORD"),
+    ("c11w-svd-forward-orth-swapped", ["C11"], [(SVD, "        outputs, _ = self.orthogonal_2(inputs)  # Ignore logabsdet as we know it's zero.\n        outputs *= self.diagonal\n        outputs, _ = self.orthogonal_1(", "        outputs, _ = self.orthogonal_1(inputs)  # Ignore logabsdet as we know it's zero.\n        outputs *= self.diagonal\n        outputs, _ = self.orthogonal_2(")], "LIN-WORD"),
+    ("c11w-svd-weight-no-transpose", ["C11"], [(SVD, "        weight, _ = self.orthogonal_1(weight.t())\n        return weight.t()", "        weight, _ = self.orthogonal_1(weight)\n        return weight")], "LIN-WORD"),
+    ("c11w-svd-weight-inverse-dir", ["C11"], [(SVD, "        weight_inv, _ = self.orthogonal_2.inverse(weight_inv.t())", "        weight_inv, _ = self.orthogonal_2(weight_inv.t())")], "LIN-WORD"),
+    ("c11w-svd-inverse-mult", ["C11"], [(SVD, "        outputs /= self.diagonal", "        outputs *= self.diagonal")], "LIN-WORD"),
+    ("c11w-svd-logdet-twice", ["C11"], [(SVD, "        return torch.sum(self.log_diagonal)", "        return 2 * torch.sum(self.log_diagonal)")], "LIN-LOGDET"),
+    ("c11w-svd-logdiag-no-log", ["C11"], [(SVD, "        return torch.log(self.diagonal)", "        return self.diagonal")], "LIN-LOGDET"),
+    ("c11w-naive-weight-inverse-transposed", ["C11"], [(LIN, "        return torch.inverse(self._weight)", "        return torch.inverse(self._weight.t())")], "LIN-WORD"),
+    ("c11w-naive-forward-transposed", ["C11"], [(LIN, "        outputs = F.linear(inputs, self._weight, self.bias)", "        outputs = F.linear(inputs, self._weight.t(), self.bias)")], "LIN-WORD"),
+    ("c11w-naive-combined-sign", ["C11"], [(LIN, "        logabsdet = torch.sum(torch.log(torch.abs(torch.diag(lu))))\n        return weight_inv, logabsdet", "        logabsdet = -torch.sum(torch.log(torch.abs(torch.diag(lu))))\n        return weight_inv, logabsdet")], "LIN-LOGDET"),
+    ("c11w-naive-combined-not-inverse", ["C11"], [(LIN, "        weight_inv = torch.lu_solve(identity, lu, lu_pivots)", "        weight_inv = torch.lu_solve(self._weight, lu, lu_pivots)")], "LIN-WORD"),
+    ("c11w-naive-inverse-no-transpose", ["C11"], [(LIN, "        outputs = torch.lu_solve(outputs.t(), lu, lu_pivots).t()", "        outputs = torch.lu_solve(outputs.t(), *torch.lu(self._weight.t())).t()")], "UNDECIDED"),
+    ("c11w-base-combined-swapped", ["C11"], [(LIN, "        return self.weight(), self.logabsdet()", "        return self.weight_inverse(), self.logabsdet()")], "LIN-WORD"),
+    ("c11w-base-combined-inverse-sign", ["C11"], [(LIN, "        return self.weight_inverse(), self.logabsdet()", "        return self.weight_inverse(), -self.logabsdet()")], "LIN-LOGDET"),
+    ("c11w-householder-matrix-forward", ["C11"], [(ORT, "        outputs, _ = self.inverse(identity)\n        return outputs", "        outputs, _ = self.forward(identity)\n        return outputs")], "LIN-WORD"),
 ]
 
 MUTANTS += [
@@ -345,6 +392,31 @@ MUTANTS += [
 ]
 
 BENIGN = [
+    ("b-c04-inline-embedding", ["C04", "C03", "C13"], [(FB, "        embedded_context = self._embedding_net(context)\n        noise, logabsdet = self._transform(inputs, context=embedded_context)\n        if self._context_used_in_base:\n            log_prob = self._distribution.log_prob(noise, context=embedded_context)", "        noise, logabsdet = self._transform(inputs, context=self._embedding_net(context))\n        if self._context_used_in_base:\n            log_prob = self._distribution.log_prob(noise, context=self._embedding_net(context))")]),
+    ("b-c08-modulelist-list", ["C08", "C15"], [(TB, "        self._transforms = nn.ModuleList(transforms)", "        self._transforms = nn.ModuleList(list(transforms))")]),
+    ("b-c08-modulelist-comprehension", ["C08", "C15"], [(TB, "        self._transforms = nn.ModuleList(transforms)", "        self._transforms = nn.ModuleList([t for t in transforms])")]),
+    ("b-c08-inverse-reversed-builtin", ["C08"], [(TB, "funcs = (transform.inverse for transform in self._transforms[::-1])", "funcs = (transform.inverse for transform in reversed(self._transforms))")]),
+    ("b-c08-inverse-list-then-reverse", ["C08"], [(TB, "funcs = (transform.inverse for transform in self._transforms[::-1])", "funcs = [transform.inverse for transform in self._transforms][::-1]")]),
+    ("b-c08-forward-list", ["C08"], [(TB, "        funcs = self._transforms\n", "        funcs = list(self._transforms)\n")]),
+    ("b-c19-log-of-sum", ["C19"], [(SVD, "        return torch.sum(self.log_diagonal)", "        return torch.log(self.diagonal).sum(-1)")]),
+    # ---- C11: algebraically equal spellings ----
+    ("b-c11w-lu-forward-matmul", ["C11", "C02", "C01"], [(LU, "        outputs = F.linear(inputs, upper)\n        outputs = F.linear(outputs, lower, self.bias)", "        outputs = inputs @ upper.t()\n        outputs = outputs @ lower.t() + self.bias")]),
+    ("b-c11w-lu-forward-weight", ["C11", "C02", "C01"], [(LU, "        outputs = F.linear(inputs, upper)\n        outputs = F.linear(outputs, lower, self.bias)", "        outputs = F.linear(inputs, lower @ upper, self.bias)")]),
+    ("b-c11w-lu-weight-mm", ["C11"], [(LU, "        return lower @ upper", "        return torch.mm(lower, upper)")]),
+    ("b-c11w-lu-unit-flag-off", ["C11"], [(LU, "            lower, identity, upper=False, unitriangular=True\n", "            lower, identity, upper=False, unitriangular=False\n")]),
+    ("b-c11w-lu-inverse-transposed-solves", ["C11", "C02"], [(LU, "        outputs = torch.linalg.solve_triangular(\n            lower, outputs.t(), upper=False, unitriangular=True\n        )\n        outputs = torch.linalg.solve_triangular(\n            upper, outputs, upper=True, unitriangular=False\n        )\n        outputs = outputs.t()", "        outputs = torch.linalg.solve_triangular(\n            lower.t(), outputs, upper=True, unitriangular=True, left=False\n        )\n        outputs = torch.linalg.solve_triangular(\n            upper.t(), outputs, upper=False, unitriangular=False, left=False\n        )")]),
+    ("b-c11w-lu-logdet-method-sum", ["C11", "C02", "C01"], [(LU, "        return torch.sum(torch.log(self.upper_diag))", "        return torch.log(self.upper_diag).sum()")]),
+    ("b-c11w-lu-logdet-inlined", ["C11"], [(LU, "        return torch.sum(torch.log(self.upper_diag))", "        return torch.sum(torch.log(self.eps + F.softplus(self.unconstrained_upper_diag)))")]),
+    ("b-c11w-qr-weight-matrix", ["C11"], [(QR, "        weight, _ = self.orthogonal(upper.t())\n        return weight.t()", "        return self.orthogonal.matrix() @ upper")]),
+    ("b-c11w-svd-weight-inverse-division", ["C11"], [(SVD, "        diagonal_inv = torch.diag(torch.reciprocal(self.diagonal))", "        diagonal_inv = torch.diag(1 / self.diagonal)")]),
+    ("b-c11w-svd-inverse-reciprocal", ["C11", "C02"], [(SVD, "        outputs /= self.diagonal", "        outputs = outputs * torch.reciprocal(self.diagonal)")]),
+    ("b-c11w-svd-logdet-direct", ["C11", "C02"], [(SVD, "        return torch.sum(self.log_diagonal)", "        return torch.sum(torch.log(self.diagonal))")]),
+    ("b-c11w-naive-linalg", ["C11", "C02", "C19"], [(LIN, "        lu, lu_pivots = torch.lu(self._weight)\n        weight_inv = torch.lu_solve(identity, lu, lu_pivots)\n        logabsdet = torch.sum(torch.log(torch.abs(torch.diag(lu))))", "        lu, lu_pivots = torch.linalg.lu_factor(self._weight)\n        weight_inv = torch.linalg.lu_solve(lu, lu_pivots, identity)\n        logabsdet = torch.sum(torch.log(torch.abs(torch.diagonal(lu))))")]),
+    ("b-c11w-naive-inverse-linalg", ["C11", "C02"], [(LIN, "        lu, lu_pivots = torch.lu(self._weight)\n        outputs = torch.lu_solve(outputs.t(), lu, lu_pivots).t()\n", "        lu, lu_pivots = torch.linalg.lu_factor(self._weight)\n        outputs = torch.linalg.lu_solve(lu, lu_pivots, outputs.t()).t()\n"), (LIN, "        logabsdet = -torch.sum(torch.log(torch.abs(torch.diag(lu))))", "        logabsdet = -torch.sum(torch.log(torch.abs(torch.diagonal(lu))))")]),
+    ("b-c11w-naive-weight-inverse-linalg", ["C11"], [(LIN, "        return torch.inverse(self._weight)", "        return torch.linalg.inv(self._weight)")]),
+    ("b-c11w-naive-logdet-slogdet", ["C11", "C02"], [(LIN, "        return torchutils.logabsdet(self._weight)\n", "        return torch.slogdet(self._weight)[1]\n")]),
+    ("b-c11w-naive-inverse-solve", ["C11", "C02"], [(LIN, "        outputs = torch.lu_solve(outputs.t(), lu, lu_pivots).t()\n", "        outputs = torch.linalg.solve(self._weight, outputs.t()).t()\n")]),
+    ("b-c11w-naive-combined-delegates", ["C11"], [(LIN, "        return weight_inv, logabsdet\n", "        return self.weight_inverse(), self.logabsdet()\n")]),
     ("b-c06-rename-local", ["C06"], [(MADE1, "        prev_out_degrees = self.initial_layer.degrees\n        for _ in range(num_blocks):", "        prev_out_degrees = self.initial_layer.degrees\n        for _blk in range(num_blocks):")]),
     ("b-c06-guard-form", ["C06"], [(MADE1, "if torch.all(self.degrees >= in_degrees).item() != 1:", "if not torch.all(in_degrees <= self.degrees):")]),
     ("b-c06-guard-any", ["C06"], [(MADE2, "if torch.all(self.degrees >= in_degrees).item() != 1:", "if (self.degrees < in_degrees).any():")]),
